@@ -46,9 +46,12 @@ type sim struct {
 	settings kube.Settings
 	commit   [3]ratio
 	strict   bool // cfg strictports=1: network-policy ports are read as container ports only
-	leases   []*lease
-	byNS     map[string]*lease
-	byID     map[string]*lease
+	// cfg noreqcheck=1 (self-test only): skip the request-level isolation check so that the
+	// dump-diff isolation check can be exercised on its own
+	noReqCheck bool
+	leases     []*lease
+	byNS       map[string]*lease
+	byID       map[string]*lease
 }
 
 const (
@@ -103,18 +106,22 @@ func (s *sim) genFault(o *op) {
 }
 
 // genOp draws the next operation.  It must not change the simulator state (the operation may be
-// skipped by the minimiser).
+// skipped by the minimiser).  The kind and the lease index are drawn with state-independent ranges so
+// that removing an earlier operation does not re-interpret the later draws more than necessary; a kind
+// that is not applicable in the current state falls back to the nearest applicable one.
 func (s *sim) genOp() *op {
 	r := s.r
 	al := s.alive()
-	w := []int{5, 6, 2, 1}
-	if len(al) >= maxAlive {
-		w[opDeployNew] = 0
+	o := &op{kind: r.Weighted([]int{5, 6, 2, 1}, "op.kind")}
+	idx := r.Choose(maxAlive, "op.lease")
+	switch {
+	case o.kind == opDeployNew && len(al) >= maxAlive:
+		o.kind = opRedeploy
+	case o.kind == opRedeploy && len(al) == 0:
+		o.kind = opDeployNew
+	case o.kind == opTeardown && len(al) == 0:
+		o.kind = opTeardownUnknown
 	}
-	if len(al) == 0 {
-		w[opRedeploy], w[opTeardown] = 0, 0
-	}
-	o := &op{kind: r.Weighted(w, "op.kind")}
 	switch o.kind {
 	case opDeployNew:
 		o.lid = genLeaseID(r)
@@ -125,11 +132,11 @@ func (s *sim) genOp() *op {
 			o.mutation = "fresh"
 		}
 	case opRedeploy:
-		l := al[r.Choose(len(al), "op.lease")]
+		l := al[idx%len(al)]
 		o.lid = l.id
 		o.group, o.mutation = mutateGroup(r, l.attempts[len(l.attempts)-1])
 	case opTeardown:
-		l := al[r.Choose(len(al), "op.lease")]
+		l := al[idx%len(al)]
 		o.lid = l.id
 	case opTeardownUnknown:
 		o.lid = genLeaseID(r)
@@ -210,6 +217,7 @@ func (s *sim) exec(o *op) *core.Violation {
 		if s.settings.NetworkPoliciesEnabled {
 			r.Count("probe:netpol-on")
 		}
+		s.probeRounding(o.group)
 		r.Logf("#%d %s lease=%s ns=%s (%s) manifest: %s%s", r.Step, opNames[o.kind], shortLid(l.id), l.ns[:8], o.mutation, describeGroup(o.group), fdesc)
 		l.alive = true
 		attempt := 0
@@ -343,6 +351,33 @@ func (s *sim) abstract(l *lease, d *dump) string {
 	return sb.String()
 }
 
+// probeRounding counts the deploys in which a commit level > 1 does not divide a leased quantity
+// (rounding matters) or scales it below one (the request must be clamped to 1).
+func (s *sim) probeRounding(g manifest.Group) {
+	rounding, clamped := false, false
+	for _, svc := range g.Services {
+		vals := [3]uint64{svc.Resources.CPU.Units.Value(), svc.Resources.Memory.Quantity.Value(), svc.Resources.Storage.Quantity.Value()}
+		for i, v := range vals {
+			q := s.commit[i]
+			if q.num <= q.den {
+				continue
+			}
+			if (v*q.den)%q.num != 0 {
+				rounding = true
+			}
+			if v*q.den < q.num {
+				clamped = true
+			}
+		}
+	}
+	if rounding {
+		s.r.Count("probe:commit-level-rounding")
+	}
+	if clamped {
+		s.r.Count("probe:commit-level-clamped-to-one")
+	}
+}
+
 // probeStale counts the reach probe "a resource of a service that left the manifest was removed".
 func (s *sim) probeStale(l *lease, before, after *dump) {
 	names := serviceNames(l.attempts)
@@ -369,7 +404,7 @@ func (Engine) Execute(r *core.Run) *core.Violation {
 		panic(fmt.Sprintf("kubesim: generated settings rejected by the provider: %v", err))
 	}
 	s := &sim{r: r, c: c, settings: settings, commit: q, byNS: map[string]*lease{}, byID: map[string]*lease{},
-		strict: r.Cfgs("strictports", "") == "1"}
+		strict: r.Cfgs("strictports", "") == "1", noReqCheck: r.Cfgs("noreqcheck", "") == "1"}
 	r.Logf("settings: commit cpu=%v mem=%v storage=%v netpol=%v statichosts=%v domain=%q lbhosts=%v runtimeclass=%q svctype=%s",
 		q[0], q[1], q[2], settings.NetworkPoliciesEnabled, settings.DeploymentIngressStaticHosts, settings.DeploymentIngressDomain,
 		settings.DeploymentIngressExposeLBHosts, settings.DeploymentRuntimeClass, settings.DeploymentServiceType)
@@ -400,7 +435,7 @@ func (Engine) Describe(property string) core.Description {
 			"dseq/gseq/oseq from colliding sets {1,12,121,256,257,65536,2^32}x{1,2,12,21}x{1,11,2,21}), re-Deploy with the same / a fresh / a mutated manifest " +
 			"(drop, add, replace service; change exposes, resources, count), TeardownLease of an alive or a never deployed lease.  Manifest groups: 1-3 services named from " +
 			"{web,db,api,web-np,cache}, image/env/args, count 1-3, cpu from {100,1,5,10,15,250,1000,1001}m, memory and storage from 6 values incl. 1, 3, 7 bytes and primes, " +
-			"0-3 exposes (port, external port incl. 0, TCP|UDP, global, 0-2 hosts, optional target service).  With probability 45% an operation carries a planned API fault: " +
+			"0-3 exposes (port, external port incl. 0, TCP|UDP, global, 0-2 hosts, optional target service).  With probability 41% an operation carries a planned API fault: " +
 			"the k-th (k in 1..40) API call of the operation, on either clientset, fails with a generic error / conflict / already-exists / not-found, or is applied but " +
 			"answered with a timeout (lost response); a cut Deploy is retried with probability 65%.  After every Deploy, retry and teardown the oracle re-reads every namespace, " +
 			"deployment, service, ingress, network policy and Manifest resource of the cluster.",
@@ -416,7 +451,7 @@ func (Engine) Describe(property string) core.Description {
 			"the lease's resource unit is taken from the manifest service passed to Deploy (the provider validates manifests against the on-chain lease before deploying)",
 			"requests are required to be <= limits, >= 1 and, for a commit level c > 1, within [floor(leased/c), ceil(leased/c)] (either rounding direction accepted); for c <= 1 or unset only requests <= limits is required",
 			"a nil Privileged flag counts as unprivileged (API default false); AllowPrivilegeEscalation and AutomountServiceAccountToken must be explicitly false (API default true)",
-			"'ports the tenant exposed globally' is read as the global exposes of the manifests applied since the last complete Deploy; a network-policy port may name either the external or the container port of such an expose (cfg strictports=1: container port only)",
+			"'ports the tenant exposed globally' is read as the global exposes of the manifests applied since the last complete Deploy; a network-policy port may name either the container port or the external ('as') port of such an expose - the latter is counted as probe:netpol-port-is-external-not-container (cfg strictports=1 reports it as C11/netpol-ingress-port-is-external-port: NetworkPolicy ports are matched against the pod port)",
 			"ingress from the whole ingress-controller namespace (label app.kubernetes.io/name=ingress-nginx) counts as 'from the ingress controller'",
 			"DNS exception: an egress rule whose ports are all 53 is accepted whatever its destination",
 			"while a Deploy is cut by an API fault and not yet completed, objects may stem from any manifest attempted since the last complete Deploy",
@@ -425,7 +460,7 @@ func (Engine) Describe(property string) core.Description {
 		RequiredProbes: []string{"probe:redeploy-changed-manifest", "probe:stale-resource-removed", "probe:deploy-cut-and-retried", "probe:netpol-on",
 			"probe:global-expose", "probe:commit-level-rounding", "probe:teardown", "fault:api-error-generic", "fault:api-error-conflict",
 			"fault:api-error-already-exists", "fault:api-error-not-found", "fault:api-error-lost-response"},
-		QuickRuns: 3000, ThoroughRuns: 400000, QuickBudgetS: 90, ThoroughBudget: 900,
+		QuickRuns: 3000, ThoroughRuns: 200000, QuickBudgetS: 90, ThoroughBudget: 900,
 		SimTimeUnit: "operations",
 	}
 }
